@@ -5,7 +5,7 @@
 #   tools/mutbox.sh <patch.diff|none> <Cxx> [Cxx...]      (tier from $TIER, default quick)
 set -u
 patch="$1"; shift
-M=/tmp/mut
+M=${MUTBOX:-/tmp/mut}
 mkdir -p $M
 if [ ! -d $M/repo/.git ] && [ ! -f $M/repo/.git ]; then
   git -C /repo worktree add -q --detach $M/repo HEAD || exit 2
